@@ -31,12 +31,22 @@ inductive Op where
 
 namespace Node
 
+/-- the response built by `createResp` from the state after the handler -/
+def mkReply (s : Node) (isVote isAppend : Bool) : RpcReply :=
+  { term := s.term, result := s.result, lastLogIndex := (if isAppend then s.lastLogIndex else 0),
+    resetTimer := !isVote || s.result == rSuccess }
+
 /-- `replyRPC` after `onRequest`: build the response from the post-state, compute `resetTimer`. -/
 def rpcDone (s : Node) (isVote : Bool) (isAppend : Bool := false) : Node :=
-  let s := (s.withRpcReply (some { term := s.term, result := s.result,
-                                        lastLogIndex := (if isAppend then s.lastLogIndex else 0),
-                                        resetTimer := !isVote || s.result == rSuccess }))
-  if s.result = rUnexpectedErr then s.panic "error.unexpectedErr" else s
+  if s.result = rUnexpectedErr then (s.withRpcReply (some (s.mkReply isVote isAppend))).panic "error.unexpectedErr"
+  else s.withRpcReply (some (s.mkReply isVote isAppend))
+
+/-- what `rpcDone` leaves as the reply -/
+theorem rpcDone_reply (s : Node) (a b : Bool) : (s.rpcDone a b).rpcReply = some (s.mkReply a b) := by
+  unfold rpcDone
+  split
+  · unfold Node.panic; split <;> rfl
+  · rfl
 
 /-- Entries submitted to a node that is not the leader (`stateLoop`, case `newEntryCh`). -/
 def rejectEntries (s : Node) : List QItem → Node
